@@ -211,10 +211,18 @@ def main(repo, out):
         ('arg_bit', 'letarg_bit=match&arg.value{LowerArg::Raw(raw)ifraw.is_reg=>current_param_mask_bit,LowerArg::Local{..}=>current_param_mask_bit,LowerArg::DiffSwitch{..}=>panic!("shouldbehandledearlier"),_=>0,};'),
         ('mask update', 'ifenc.contributes_to_param_mask(){ifenc.is_always_immediate()&&arg_bit!=0{'),
         ('mask update (2)', '}else{param_mask|=arg_bit;}current_param_mask_bit<<=1;}elseifarg_bit!=0{'),
-        ('too-many-arguments check', 'ifcurrent_param_mask_bit.trailing_zeros()>raw::ParamMask::BITSas_{returnErr('),
+
         ('result', 'param_mask:matchinstr.user_param_mask{Some(user_provided_mask)=>user_provided_mask,None=>param_mask,},args_blob:args_blob.into_inner(),extra_arg,'),
     ):
         if txt not in ebn: note('unrecognised %s in encode_args' % what)
+    # the too-many-arguments check: the original one can never fire (trailing_zeros of a u16 is at most 16); the repaired code
+    # reports a register argument once every bit of the mask is taken
+    old_chk = 'ifcurrent_param_mask_bit.trailing_zeros()>raw::ParamMask::BITSas_{returnErr(' in ebn
+    new_chk = ('letarg_is_reg=matches!(&arg.value,LowerArg::Raw(SimpleArg{is_reg:true,..})|LowerArg::Local{..});'
+               'ifarg_is_reg&&enc.contributes_to_param_mask()&&current_param_mask_bit==0{returnErr(') in ebn
+    if old_chk and not new_chk: overflow_checked = False
+    elif new_chk and not old_chk: overflow_checked = True
+    else: note('unrecognised too-many-arguments check in encode_args'); overflow_checked = False
     # string arm
     nul = {'block': False, 'pascal': False, 'fixed': False, 'nulless': False}
     sn = nows(enc_str or '')
@@ -384,7 +392,7 @@ def main(repo, out):
     t += '  cd_imm_str := %s; cd_imm_off := %s; cd_imm_time := %s; cd_imm_pad := %s; cd_imm_int := %s; cd_imm_float := %s;\n' % tuple(b(imm[k]) for k in ('str', 'off', 'time', 'pad', 'int', 'float'))
     t += '  cd_nul_block := %s; cd_nul_pascal := %s; cd_nul_fixed := %s; cd_nul_nulless := %s;\n' % tuple(b(nul[k]) for k in ('block', 'pascal', 'fixed', 'nulless'))
     t += '  cd_pascal_prefix := 4%nat;\n'
-    t += '  cd_bs_checked := %s;\n  cd_nulless_furibug_rejected := %s;\n  cd_place_with_padding := %s;\n  cd_match_skips_padding := %s\n|}.\n' % (b(bs_checked), b(nf_rejected), b(place_with_padding), b(skips))
+    t += '  cd_bs_checked := %s;\n  cd_nulless_furibug_rejected := %s;\n  cd_mask_overflow_checked := %s;\n  cd_place_with_padding := %s;\n  cd_match_skips_padding := %s\n|}.\n' % (b(bs_checked), b(nf_rejected), b(overflow_checked), b(place_with_padding), b(skips))
     t += 'Definition gen_unrecognised : nat := %d%%nat.\n' % len(NOTES)
     t += '(* translator notes:\n' + ''.join('   %s\n' % n.replace('*)', '* )').replace('(*', '( *') for n in NOTES) + '*)\n'
     write_if_changed(out, t)
